@@ -63,8 +63,10 @@ def bounded_info():
         ],
         "stubs": [],
         "assumptions": [
-            "B13-a: names and titles are printable ASCII (one byte per character); 'non-blank' = no whitespace; a title is one line "
-            "(at most one trailing line terminator, which is not part of the title)",
+            "B13-a: names are printable ASCII (one byte per character); 'non-blank' = no whitespace; a title is one line of text "
+            "(at most one trailing line terminator, which is not part of the title) that the default text encoding -- the one GroFile's "
+            "open(path, mode) uses -- can encode; titles with multi-byte characters are in scope and compared as text; the byte-length clause "
+            "concerns atom lines only",
             "B13-b: 'fits the field width' is computed by this module as len(format(x, '{w}.{k}f')) <= w with k = d for coordinates and "
             "k = d+1 for velocities (the GROMACS convention; a value that fits with d+1 decimals also fits with d)",
             "B13-c: 'their last written decimal' is read off the written file: the number of digits after the '.' in each field; position "
@@ -84,14 +86,15 @@ def bounded_info():
             "(count declared/back-filled) x (records as lists/tuples/pre-formatted strings): 448 record lists of 1..4 records drawn from a "
             "64-record pool that covers all 64 (residue number, atom number) pairs of {0,1,7,99998,99999,100000,100001,10^7}, 16 names of "
             "1..5 non-blank characters (digit-leading included) in both name columns and every boundary coordinate/velocity that fits the "
-            "width in each of the x,y,z columns; titles (7 kinds incl. unset), boxes (7: 3-vector, diagonal, triclinic, lists/numpy/ints), "
-            "writeline/writelines and box set before/after the records rotate so that every one of the 196 combinations occurs in every task; "
+            "width in each of the x,y,z columns; titles (10 kinds incl. unset and 3 with multi-byte UTF-8 characters), boxes (10: 3-vector, diagonal, triclinic incl. "
+            "negative-only and mixed-sign tilt terms, lists/numpy/ints), "
+            "writeline/writelines and box set before/after the records rotate so that every one of the 400 combinations occurs in every task; "
             "the empty title is a separate family (48 files). Thorough adds lists of 5..8 records, three 300-record files per configuration "
             "(one per record form) and 10000 VERIF_SEED-seeded random record lists of 1..8 records per configuration (random printable names, "
             "numbers in [0,10^7], coordinates over the whole representable range and at rounding boundaries). Function-level contracts "
             "(parse_atomlist against this module's fixed-column reading, determine_format, parse_atomline against the same reading of the line "
             "it is given, dump/extract_lattice_gro) are evaluated on every pool record (thorough: + 20000 random records per format) and on "
-            "152 boxes (thorough: + 20000 random). The quick tier does not depend on the seed. "
+            "155 boxes (thorough: + 20000 random). The quick tier does not depend on the seed. "
             "Nothing here is a proof: every obligation is kind=bounded."),
         "rule": ("one evaluation = one complete write session + independent reading of the bytes + read session (file level), or one "
                  "record/box through the class/module function (function level); distinct = distinct (configuration, record list) key; "
@@ -115,6 +118,9 @@ TITLES = [
     ("long", ("long title " * 28) + "end of a 318 character title!!"),
     ("leading-spaces", "  t=   0.00000 step= 0 ; #x"),
     ("digits-only", "216"),
+    ("utf8-latin", "t\u00edtulo \u00b5-sistema"),
+    ("utf8-cjk", "\u7cfb\u7edf \u03b1"),
+    ("utf8-newline-terminated", "\u00c5ngstr\u00f6m box \u2014 216 H\u2082O\n"),
     ("unset", None),
 ]
 BOXES = [
@@ -125,6 +131,9 @@ BOXES = [
     {"kind": "triclinic", "value": [[3.12345, 0.0, 0.0], [0.5, 2.98765, 0.0], [-1.23456, 0.77777, 4.00001]], "numpy": False},
     {"kind": "triclinic-v3x", "value": [[5.0, 0.0, 0.0], [0.0, 5.0, 0.0], [2.5, 0.0, 5.0]], "numpy": True},
     {"kind": "triclinic-v2x", "value": [[5.0, 0.0, 0.0], [1.25, 6.0, 0.0], [0.0, 0.0, 7.0]], "numpy": False},
+    {"kind": "triclinic-hexagonal-negative-v2x", "value": [[5.0, 0.0, 0.0], [-2.5, 4.33013, 0.0], [0.0, 0.0, 6.0]], "numpy": False},
+    {"kind": "triclinic-all-tilts-negative", "value": [[4.0, 0.0, 0.0], [-1.0, 4.5, 0.0], [-0.75, -1.25, 5.0]], "numpy": True},
+    {"kind": "triclinic-mixed-sign-tilts", "value": [[4.0, 0.0, 0.0], [-1.5, 4.5, 0.0], [0.75, -0.00002, 5.0]], "numpy": False},
 ]
 APIS = ["writeline", "writelines"]
 BOX_WHEN = ["before", "after"]
@@ -212,13 +221,35 @@ def my_format(rec, w, d):
 
 def make_case(records, fmt, count, form, title_i, box_i, api, box_when):
     recs = for_form(records, form)
+    if not title_writable(TITLES[title_i][1]):      # the platform's default text encoding cannot hold this title: outside the scope
+        title_i = 0
     return {"fn": PFX + "file", "records": recs, "title_kind": TITLES[title_i][0], "title": TITLES[title_i][1],
             "box": BOXES[box_i], "fmt": list(fmt) if fmt is not None else None, "count": count, "form": form,
             "api": api, "box_when": box_when}
 
 
+N_ROT = len(TITLES) * len(BOXES) * 4
+
+
 def rotate(j):
-    return j % len(TITLES), (j // len(TITLES)) % len(BOXES), APIS[(j // 49) % 2], BOX_WHEN[(j // 98) % 2]
+    nt, nb = len(TITLES), len(BOXES)
+    return j % nt, (j // nt) % nb, APIS[(j // (nt * nb)) % 2], BOX_WHEN[(j // (nt * nb * 2)) % 2]
+
+
+def text_encoding():
+    """the default text encoding, i.e. the one GroFile's open(path, mode) uses"""
+    import locale
+    return locale.getpreferredencoding(False)
+
+
+def title_writable(title):
+    if title is None:
+        return True
+    try:
+        title.encode(text_encoding())
+        return True
+    except (UnicodeEncodeError, LookupError):
+        return False
 
 
 # ---------------------------------------------------------------------------
@@ -388,15 +419,18 @@ def indep_file(raw, n, w, d, vel):
     """independent reading of a complete .gro file of n atoms; returns (parts, [layout problems])"""
     parts = {"title": None, "count": None, "atom_lines": None, "atoms": None, "box": None}
     probs = []
-    try:
-        text = raw.decode("ascii")
-    except UnicodeDecodeError as e:
-        return parts, [f"file is not ASCII: {e}"]
-    if not text.endswith("\n"):
-        probs.append(f"file does not end with a line terminator: ...{text[-30:]!r}")
-    lines = text.split("\n")
-    if lines and lines[-1] == "":
-        lines.pop()
+    blines = raw.split(b"\n")
+    if blines and blines[-1] == b"":
+        blines.pop()
+    else:
+        probs.append(f"file does not end with a line terminator: ...{raw[-30:]!r}")
+    lines = []
+    for k, bl in enumerate(blines):
+        try:
+            lines.append(bl.decode(text_encoding() if k == 0 else "ascii"))
+        except UnicodeDecodeError as e:
+            probs.append(f"line {k} is not {'text in the default encoding' if k == 0 else 'ASCII'}: {bl!r} ({e})")
+            lines.append(bl.decode("ascii", "replace"))
     if len(lines) != n + 3:
         probs.append(f"file has {len(lines)} lines, {n + 3} expected (title, count, {n} atoms, box)")
     if lines:
@@ -563,7 +597,7 @@ def evaluate(case, raw, rd, announced, read_exc=None):
             for j in range(3):
                 if abs(parts["box"][i][j] - eb[i][j]) > BOX_TOL:
                     put(C_BOX, f"[written file] box[{i}][{j}] = {float(eb[i][j])!r} is written as {float(parts['box'][i][j])!r} "
-                               f"(box line {raw.decode('ascii', 'replace').rstrip(chr(10)).split(chr(10))[-1]!r})", f"box[{i}][{j}]")
+                               f"(box line {raw.rstrip(b'\n').split(b'\n')[-1].decode('ascii', 'replace')!r})", f"box[{i}][{j}]")
     et = expected_title(case["title"], announced)
     if parts["title"] is not None and et is not None and parts["title"] != et:
         put(C_TITLE, f"[written file] title {et!r} is written as {parts['title']!r}", "title")
@@ -650,7 +684,7 @@ def run_case(case, tmp, corrupt=None):
         except Raised as e:
             rexc = e
     bad, done = evaluate(case, raw, rd, announced, rexc)
-    return bad, done, raw.decode("ascii", "replace")
+    return bad, done, raw.decode(text_encoding(), "replace")
 
 
 def case_key(case):
@@ -816,7 +850,7 @@ def _big_and_random(prop, fmt, vel, count, seed, tmp, pool):
     for j in range(N):
         n = 1 + (j % 8)
         recs = [rnd_record(rng, fmt, vel, C, V) for _ in range(n)]
-        ti, bi, api, bw = rotate(rng.randrange(0, 196))
+        ti, bi, api, bw = rotate(rng.randrange(0, N_ROT))
         case = make_case(recs, fmt, count, FORMS[j % 3], ti, bi, api, bw)
         bad, done, text = run_case(case, tmp)
         agg.add(case_key(case), nontrivial_case(case), bad, done, case,
@@ -1103,6 +1137,21 @@ def task_guards(prop, seed):
                           kind="guard", engine="smallscope", backend="runtime-contract", expect="refuted",
                           reason=(bad.get(clause) or bad.get(C_EXC) or ("not caught", ""))[0][:300],
                           sample={"corrupted_file": text, "violated": sorted(f"{c[1]}" for c in bad)}))
+        # multi-byte title: the count back-filled at a character offset instead of a file offset eats the end of the title line
+        u8 = dict(base, title_kind="utf8-cjk", title="\u7cfb\u7edf \u03b1", records=[r[:7] for r in recs_v])
+        if title_writable(u8["title"]):
+            def charoffset(raw):
+                k = len(u8["title"]) + 1
+                return raw[:k] + b"        2\n" + raw[k + 10:]
+            gid = f"{prop}/{F_FILE}/guard.must-fail.title_equal/multi-byte-title-count-backfilled-at-character-offset"
+            try:
+                bad0u, _, _ = run_case(u8, tmp)
+                bad, done, text = run_case(u8, tmp, corrupt=charoffset)
+                out.append(ob(gid, "refuted" if (not bad0u and (C_TITLE in bad or C_LAYOUT in bad)) else "discharged", kind="guard",
+                              engine="smallscope", backend="runtime-contract", expect="refuted",
+                              reason=(bad.get(C_TITLE) or bad.get(C_LAYOUT) or ("not caught", ""))[0][:300], sample={"corrupted_file": text}))
+            except Exception as e:
+                out.append(_guard_undecided(gid, e))
         # reader format guard: a file whose lines are (9,4) while (8,3) was requested
         case94 = dict(base, records=[[1, "SOL", "OW", 1, 1.0, -2.5, 0.125], [2, "SOL", "HW1", 2, 3.0, 0.0005, -99.999]])
 
@@ -1196,7 +1245,11 @@ def scope_coverage():
     cov["box-kinds"] = {b["kind"].split("-")[0] for b in BOXES} == {"vector", "diagonal", "triclinic"} and all(
         b["value"][0][1] == 0 and b["value"][0][2] == 0 and b["value"][1][2] == 0 for b in BOXES if isinstance(b["value"][0], list))
     combos = {rotate(j) for j in range(448 * 3)}
-    cov["title-box-api-timing-all-196-combinations-per-task"] = len(combos) == len(TITLES) * len(BOXES) * 4
+    cov["title-box-api-timing-all-combinations-per-task"] = len(combos) == N_ROT
+    cov["multi-byte-titles-writable-and-present"] = sum(1 for k, t in TITLES if t and title_writable(t) and len(t.encode(text_encoding())) > len(t)) >= 2
+    tilts = [[b["value"][1][0], b["value"][2][0], b["value"][2][1]] for b in BOXES if isinstance(b["value"][0], list)]
+    cov["triclinic-boxes-with-no-positive-tilt"] = sum(1 for t in tilts if min(t) < 0 and max(t) <= 0) >= 2
+    cov["triclinic-boxes-with-mixed-sign-tilts"] = any(min(t) < 0 < max(t) for t in tilts)
     return cov
 
 
